@@ -565,7 +565,7 @@ pub unsafe trait Pe<'a>: PeObject<'a> + Copy {
 	where
 		Self: Copy,
 	{
-		let datadir = self.data_directory().get(IMAGE_DIRECTORY_ENTRY_RESOURCE).ok_or(Error::Bounds)?;
+		let datadir = self.data_directory().get(IMAGE_DIRECTORY_ENTRY_RESOURCE).ok_or(Error::Null)?;
 		// The resource structures are referenced in place relative to the start of the directory, it must be dword aligned
 		let bytes = self.slice(datadir.VirtualAddress, 0, mem::align_of::<IMAGE_RESOURCE_DIRECTORY>())?;
 		let size = cmp::min(datadir.Size as usize, bytes.len());
